@@ -537,6 +537,38 @@ def gen_maintenance(rng, kind, n):
     return out
 
 
+def gen_topup_after_failed_send(rng, kind, n):
+    """C08: the idle set also shrinks outside the maintenance scan - a send fails on the connection it took and closes it; the following
+    passes (in which nothing expires) restore min_idle."""
+    out = []
+    for k in range(n):
+        mi = rng.choice([1, 2])
+        sc = base(rng, kind, {"max": 3, "min_idle": mi, "idle_ms": rng.choice([400, 600])}, probe_delay_us=0, reply_delay_us=0)
+        sc["faults"] = [{"conn": None, "cmd": ["RCPT", "MAIL", "DATA"][k % 3], "nth": 0, "act": "e5"}]
+        sc["senders"] = []
+        sc["after"] = [{"op": "wait_idle", "n": mi, "ms": 4000, "why": "the maintenance pass tops the idle set up to min_idle"},
+                       send_op("w0", rng),
+                       {"op": "wait_idle", "n": mi, "ms": 5000, "why": "min_idle is restored after a failed send closed the connection it had taken"}, {"op": "debug"}]
+        sc["family"] = "topup-after-failed-send"
+        out.append(sc)
+    return out
+
+
+def gen_shutdown_during_eviction(rng, kind, n):
+    """C09: the maintenance pass is closing an expired connection whose peer is slow to answer QUIT when shutdown (and a send) arrive:
+    shutdown returns promptly all the same - the worker's goodbye is not made while the pool is locked."""
+    out = []
+    for k in range(n):
+        sc = base(rng, kind, {"max": 2, "min_idle": 0, "idle_ms": 200}, probe_delay_us=0, reply_delay_us=0)
+        sc["timeout_ms"] = 2500
+        sc["faults"] = [{"conn": None, "cmd": "QUIT", "nth": 0, "act": "stall", "ms": 1900}]
+        sc["senders"] = [[send_op("e0", rng), {"op": "sleep", "ms": 470 + 40 * (k % 4)}, {"op": "shutdown"}, send_op("late", rng)]]
+        sc["after"] = [{"op": "debug"}]
+        sc["family"] = "shutdown-during-eviction"
+        out.append(sc)
+    return out
+
+
 def gen_stalled_command(rng, kind, n):
     """C08: a command other than the probe gets its reply only after the timeout: the send fails, and that connection - on which the reply
     is still to come - is never parked or used again; the following sends succeed on another one."""
@@ -548,6 +580,37 @@ def gen_stalled_command(rng, kind, n):
         sc["senders"] = [[send_op("h0", rng), send_op("h1", rng), {"op": "sleep", "ms": 700}, send_op("h2", rng), send_op("h3", rng)]]
         sc["after"] = [{"op": "debug"}]
         sc["family"] = "stalled-command"
+        out.append(sc)
+    return out
+
+
+def gen_one_per_session(rng, kind, n):
+    """C07: a server that accepts one message per session (421 to whatever follows): every send still corresponds to exactly one commit -
+    what happens on a connection after the message was accepted cannot turn the delivery into a failure."""
+    out = []
+    for k in range(n):
+        sc = base(rng, kind, {"max": rng.choice([1, 2, 3]), "min_idle": 0, "idle_ms": 60000})
+        sc["one_per_session"] = True
+        sc["senders"] = [[send_op("o%d-%d" % (t, j), rng) for j in range(rng.randint(2, 3))] for t in range(rng.randint(1, 3))]
+        sc["after"] = [{"op": "debug"}]
+        sc["family"] = "one-message-per-session"
+        out.append(sc)
+    return out
+
+
+def gen_failed_body_then_send(rng, kind, n):
+    """C07: the content write of a large message fails (the server does not read for longer than the timeout); the sends that follow from the
+    same thread commit their own content only."""
+    out = []
+    for k in range(n):
+        sc = base(rng, kind, {"max": 2, "min_idle": 0, "idle_ms": 60000}, probe_delay_us=0, reply_delay_us=0)
+        sc["timeout_ms"] = 400
+        sc["body_delay_first_ms"] = 1600
+        big = dict(send_op("g0", rng), size=(6 << 20) + 1000 * k, shape=0, nrcpt=1)
+        sc["senders"] = [[big, {"op": "sleep", "ms": 1500}, send_op("g1", rng), send_op("g2", rng)]]
+        sc["after"] = [{"op": "debug"}]
+        sc["family"] = "failed-content-write-then-send"
+        sc["stall_is_harmless"] = True
         out.append(sc)
     return out
 
